@@ -313,6 +313,61 @@ func cmdCheck(args []string) int {
 			}
 		}
 	}
+	// likewise a loop invariant that is not established or not preserved is nevertheless assumed
+	// at the loop head and after the loop: everything generated after its inv.init obligations
+	// (the loop body, the other invariants' preservation, the code after the loop) is conditional
+	loopOf := func(o *Obl) string {
+		if o.Kind != "inv.init" && o.Kind != "inv.keep" {
+			return ""
+		}
+		i := strings.Index(o.Name, "#"+o.Kind+".loop")
+		if i < 0 {
+			return ""
+		}
+		rest := o.Name[i+len("#"+o.Kind+".loop"):]
+		j := 0
+		for j < len(rest) && rest[j] >= '0' && rest[j] <= '9' {
+			j++
+		}
+		return rest[:j]
+	}
+	for _, r := range results {
+		failing := map[string]string{}
+		for _, o := range r.Obls {
+			if o.ExpectSat || o.Status == "unsat" || o.Status == "conditional" {
+				continue
+			}
+			if l := loopOf(o); l != "" {
+				if _, ok := failing[l]; !ok {
+					failing[l] = o.Name
+				}
+			}
+		}
+		if len(failing) == 0 {
+			continue
+		}
+		blockedBy := ""
+		pending := "" // a failing loop whose inv.init group has been passed
+		for _, o := range r.Obls {
+			if o.ExpectSat {
+				continue
+			}
+			if blockedBy == "" {
+				if l := loopOf(o); o.Kind == "inv.init" && failing[l] != "" {
+					pending = failing[l]
+					continue
+				}
+				if pending == "" {
+					continue
+				}
+				blockedBy = pending
+			}
+			if o.Status == "unsat" {
+				o.Status = "conditional"
+				o.Raw = map[string]string{"note": "depends on the loop invariant " + blockedBy + ", which is not discharged"}
+			}
+		}
+	}
 	rep := &Report{Prop: *prop, Tier: *tier, Seed: seed, Verif: *verif, Repo: *repo, Config: pc, BySolver: map[string]int{}, ByKind: map[string]int{}}
 	exit := 0
 	var outside []string
@@ -419,8 +474,25 @@ func cmdCheck(args []string) int {
 		}
 	}
 	if len(rep.Unproved) > 0 {
+		// An obligation that was never discharged is undecided, not a violation -- unless a
+		// replay driver for its function demonstrates a failing input on the real code.
+		driverRes := map[string]bool{}
 		for _, o := range rep.Unproved {
 			fmt.Printf("unproved (not in baseline, not counted): %s [%s]\n", o.Name, o.Status)
+			if o.Status == "error" || o.Status == "conditional" || !hasReplayDriver(rep, o) || false {
+				continue
+			}
+			if _, done := driverRes[o.Unit]; done {
+				continue
+			}
+			path := rep.writeReplay(o)
+			ok := replayOnRealCode(rep, o, path)
+			driverRes[o.Unit] = ok
+			if ok {
+				rep.Refuted = append(rep.Refuted, o)
+				fmt.Printf("VIOLATION property=%s replay=%s obligation=%s status=%s (undischarged; failing input demonstrated on the real code)\n", *prop, path, o.Name, o.Status)
+				exit = 1
+			}
 		}
 	}
 	// bounded stand-ins (never counted as proved)
